@@ -6,7 +6,7 @@
    The Avalon word is ONE byte (byteenable = one bit); base address 0; burst_increment 1; 9-bit counters wrap.
    Inputs  i = [rd, wr, a, bc, be, d, cmd_ready, wdata_ready, rdata_valid, rdata].
    Outputs o = [wait, rdv, q, cv, cwe, ca, clast, wv, wd, ww, rr].
-   VAR = "code" models the code as read; VAR = "gapfix" models the proposed repair (/verif/.work/c11_fix.diff: a write burst
+   VAR = "code" models the code as read; VAR = "gapfix" models the proposed repair (/verif/.work/C11_fix.diff: a write burst
    ends once all its beats were accepted and both FIFOs are empty; port.cmd.valid is no longer gated by the data FIFO level;
    the last command of a read burst carries cmd.last); other values seed defects for the negative controls. *)
 EXTENDS Integers, Sequences, FiniteSets
